@@ -4,7 +4,7 @@ from hypothesis import strategies as st
 import gen
 import model as M
 import oracle
-from common import ModelRun, model_classes, Blocks, cmat, cx, pipeline_guard
+from common import warmup, ModelRun, model_classes, Blocks, cmat, cx, pipeline_guard
 from drive import Result
 from props.c07 import jw_image
 
@@ -71,6 +71,7 @@ def execute(case, ctx):
             q.append((("f", src, "cdag", i), "fieldop %s cdag %d" % (src, i)))
     for k, (i, j) in enumerate(case["quad"]):
         q.append((("quad", i, j), "quadop %d %d" % (i, j)))
+    warmup(ctx, mdl, upto="hprepare")
     run = ModelRun(ctx, mdl, q, upto="hcompute")
     classes = model_classes(mdl)
     g = pipeline_guard(run, classes, run.qlines["ops"])
